@@ -4,9 +4,17 @@
 
 package http
 
+// withSlash(s): s with a trailing slash (so that prefixes are compared on segment boundaries)
+//@ ghost func withSlash(s string) string
+//@   define strings.HasSuffix(s, "/") ? s : s + "/"
+
+// Decided with SMT-LIB strings and mathematical integers.
 //@ func matchesPath
 //@   prop C04
 //@   pure
+//@   ints math
+//@   theory strings
+//@   ensures [prefix-on-segment-boundary] result == (path == "/" || withSlash(requestURI) == withSlash(path) || strings.HasPrefix(withSlash(requestURI), withSlash(path)))
 
 // The skipper of the token middleware: it may skip authentication only for requests the router does
 // not dispatch under `path`. echo dispatches on echo.GetPath(request) (RawPath if set, else Path).
@@ -49,3 +57,19 @@ package http
 //@        && ($iter1 == 2 ==> arg(1) == "/health") && ($iter1 == 3 ==> arg(1) == "/metrics")
 //@   call (Engine).applyAuthMiddleware #1 requires [all-four-bound-before-auth] $iter1 == 4 && arg(2) == "/internal" && arg(3) == h.config.Internal.Auth
 //@   ensures [success-only-through-auth-setup] isNilIface(result) ==> did(call (Engine).applyAuthMiddleware #1) && isNilIface(ret(call (Engine).applyAuthMiddleware #1))
+
+// "When API token authentication is enabled" the middleware really is installed: success with
+// token_v2 configured means the authenticator was built from the configured audience (or the host
+// name) and authorized_keys file, with this function's skipper, and was registered on the router;
+// any other non-empty type is an error.
+//@ func (Engine).applyAuthMiddleware
+//@   prop C04
+//@   ensures [token-auth-installed-or-error] isNilIface(result) && config.Type == BearerTokenAuthV2 ==>
+//@           did(call tokenV2.NewFromFile #1) && isNilIface(ret(call tokenV2.NewFromFile #1).1)
+//@        && did(call (core.EchoRouter).Use #1) && arg(call (core.EchoRouter).Use #1, 0) == echoServer
+//@   ensures [unknown-type-refused] config.Type != "" && config.Type != BearerTokenAuthV2 ==> !isNilIface(result)
+//@   call tokenV2.NewFromFile #1 requires [configured-keys-and-audience] arg(2) == config.AuthorizedKeysPath
+//@           && (config.Audience != "" ==> arg(1) == config.Audience)
+//@           && (config.Audience == "" ==> arg(1) == ret(call os.Hostname #1).0 && isNilIface(ret(call os.Hostname #1).1))
+//@   call (core.EchoRouter).Use #1 requires [registers-that-authenticator] isNilIface(ret(call tokenV2.NewFromFile #1).1)
+//@           && len(arg(1)) == 1
